@@ -187,23 +187,42 @@ def c18(work, tier, seed):
         if c["signedSel"] and not c["queryKey"]: r.append("e")
         if c["nhosts"] == 0: r.append("f")
         return r
+    canon = [c for c in cfgs if c["spell"] == "canon"]
+    other = [c for c in cfgs if c["spell"] != "canon"]
     if tier == "quick":
         # every configuration with at most one refusal reason from every source, a sample of the rest
-        pick = [c for c in cfgs if len(reasons(c)) <= 1]
+        pick = [c for c in canon if len(reasons(c)) <= 1]
         rng.shuffle(pick)
         single = {}
         for c in pick:
             key = (tuple(reasons(c)), tuple(sorted(c["auth"])))
             single.setdefault(key, c)
         chosen = list(single.values())
-        rest = [c for c in cfgs if len(reasons(c)) > 1]
+        rest = [c for c in canon if len(reasons(c)) > 1]
         rng.shuffle(rest)
         chosen += rest[:40]
         for i, c in enumerate(chosen):
             for src in (("file", "env", "both") if len(reasons(c)) <= 1 and i % 3 == 0 else (["file", "env", "both"][i % 3],)):
                 scripts.append(dict(c, id="s%05d" % len(scripts), kind="start", src=src))
+        # other spellings of the keyword values: per spelling every (single refusal reason, mechanism set) class whose
+        # reason involves a keyword, and the configurations without any reason
+        rng.shuffle(other)
+        seen = set()
+        for c in other:
+            rs = reasons(c)
+            if len(rs) > 1 or (rs and rs[0] in ("d", "f")):
+                continue
+            if c["spell"] == "alias" and "local" not in c["auth"]:
+                continue
+            key = (c["spell"], tuple(rs), tuple(sorted(c["auth"])))
+            if key in seen:
+                continue
+            seen.add(key)
+            scripts.append(dict(c, id="s%05d" % len(scripts), kind="start", src=["file", "env", "both"][len(scripts) % 3]))
     else:
         for c in cfgs:
+            if c["spell"] == "alias" and "local" not in c["auth"]:
+                continue
             for src in ("file", "env", "both"):
                 scripts.append(dict(c, id="s%05d" % len(scripts), kind="start", src=src))
     for key in ("paasign", "sess", "sessenc", "userenc"):
